@@ -63,6 +63,17 @@ Proof.
   intros orc cancel_at f vars body m k kr s Hc. cbn [exec exec_body]. unfold for_map_iter. now rewrite (poll_cancelled _ _ Hc).
 Qed.
 
+(* no call begins once the context is cancelled: the callee is resolved, the context is polled, and
+   neither an argument is evaluated nor the function (script or host) entered; so two host calls
+   written in one statement are always separated by a poll, and only the time inside one single
+   host call is outside the bound *)
+Theorem no_call_begins_after_cancel : forall orc cancel_at f fv args va go s,
+  cancelled cancel_at s ->
+  exec orc cancel_at (S f) (CCall fv args va go) s = Err (ESentinel SInterruptS) (set_rv (polled s) rv_nil).
+Proof.
+  intros orc cancel_at f fv args va go s Hc. cbn [exec exec_body]. unfold call_polled. now rewrite (poll_cancelled _ _ Hc).
+Qed.
+
 (* `??` cannot swallow the interruption: when its left side failed and the context is cancelled,
    the right side is not evaluated and the interrupt comes out *)
 Theorem coalesce_does_not_recover_after_cancel : forall cancel_at rec l r s e s1,
@@ -88,6 +99,7 @@ Proof. reflexivity. Qed.
 Print Assumptions no_statement_begins_after_cancel.
 Print Assumptions no_loop_iteration_after_cancel.
 Print Assumptions no_forin_iteration_after_cancel.
+Print Assumptions no_call_begins_after_cancel.
 Print Assumptions coalesce_does_not_recover_after_cancel.
 Print Assumptions try_does_not_catch_the_interrupt.
 
@@ -101,3 +113,16 @@ Example ex_c02_runs :
   | _ => False
   end.
 Proof. vm_compute. exact I. Qed.
+
+(* non-vacuity: [probe(1), probe(2), probe(3)] in one statement, cancelled at the poll of the third
+   call: the first two host calls ran, the third did not start *)
+Definition ex_c02_calls : stmt :=
+  SStmts [SExpr (EArray [ECall "probe" [ELit (LInt 1)] false false; ECall "probe" [ELit (LInt 2)] false false;
+                         ECall "probe" [ELit (LInt 3)] false false] None)].
+Example ex_c02_calls_runs :
+  match run_context (mkOracle [] []) (Some 4) 400 (Some ex_c02_calls)
+                    (mkR (mkStore [mkScope None [("probe", Imm (VHost 0))] [] None] [] [] [] [] 0) 0 rv_nil []) with
+  | Err (ESentinel SInterruptS) s' => st_trace (r_st s') = [[VInt 2]; [VInt 1]]
+  | _ => False
+  end.
+Proof. vm_compute. reflexivity. Qed.
